@@ -18,6 +18,7 @@ import (
 	"os"
 	"path/filepath"
 	"runtime"
+	"runtime/pprof"
 	"sort"
 	"strconv"
 	"strings"
@@ -1032,15 +1033,23 @@ func runHistory(ops []op, base, seq int) (res *histResult) {
 			r.s.Close()
 		}
 	}()
+	tOpen := time.Now()
 	if err := r.openSession(); err != nil {
 		res.Harness = "NewSession: " + err.Error()
 		return
+	}
+	if os.Getenv("VERIF_C14_TIMING") != "" {
+		res.Trace = append(res.Trace, fmt.Sprintf("open took %v", time.Since(tOpen)))
 	}
 	r.checkRegistry(r.s, r.m.Live, "C14.seq", true)
 	for i, o := range ops {
 		r.step = i + 1
 		before := len(res.Viol)
+		t0 := time.Now()
 		r.apply(o)
+		if os.Getenv("VERIF_C14_TIMING") != "" {
+			res.Trace = append(res.Trace, fmt.Sprintf("apply %s took %v", o, time.Since(t0)))
+		}
 		if res.Harness != "" {
 			return
 		}
@@ -1057,6 +1066,12 @@ func runHistory(ops []op, base, seq int) (res *histResult) {
 	res.Key = r.m.key(r.base)
 	res.Next = r.m.nextOps()
 	// implicit final restart (not an operation of the history; Loaded flags are not part of Key above)
+	tFin := time.Now()
+	defer func() {
+		if os.Getenv("VERIF_C14_TIMING") != "" {
+			res.Trace = append(res.Trace, fmt.Sprintf("final restart+close took %v", time.Since(tFin)))
+		}
+	}()
 	if len(ops) == 0 || ops[len(ops)-1].K != "reopen" {
 		r.doReopen(false)
 		if res.Harness != "" {
@@ -1067,7 +1082,16 @@ func runHistory(ops []op, base, seq int) (res *histResult) {
 		}
 	}
 	if r.s != nil {
-		r.closeAndCheckFile()
+		if len(ops) > 0 && ops[len(ops)-1].K == "reopen" {
+			r.closeAndCheckFile()
+		} else {
+			// the file was inspected before the implicit restart; nothing but the restart happened since
+			err := r.s.Close()
+			r.s = nil
+			if err != nil {
+				r.fail("C14.seq.close.error", "Session.Close: %v", err)
+			}
+		}
 	}
 	return
 }
@@ -1095,8 +1119,29 @@ func acquirePortBase() (int, error) {
 // ---------------------------------------------------------------------------------------------
 // coordinator
 
-type node struct {
-	hist []op
+// cleanupLeftovers removes scratch directories of worker processes that died, and the slot files.
+func cleanupLeftovers() {
+	for _, root := range []string{"/dev/shm", os.Getenv("VERIF_TMP")} {
+		ents, _ := filepath.Glob(filepath.Join(root, "c14-*-*"))
+		for _, e := range ents {
+			parts := strings.Split(filepath.Base(e), "-")
+			if len(parts) != 3 {
+				continue
+			}
+			if _, err := os.Stat("/proc/" + parts[1]); err != nil {
+				os.RemoveAll(e)
+			}
+		}
+	}
+	slots, _ := filepath.Glob("/dev/shm/verif-c14-slot-*")
+	for _, f := range slots {
+		if fh, err := os.OpenFile(f, os.O_RDWR, 0); err == nil {
+			if syscall.Flock(int(fh.Fd()), syscall.LOCK_EX|syscall.LOCK_NB) == nil {
+				os.Remove(f) // nobody holds it
+			}
+			fh.Close()
+		}
+	}
 }
 
 func TestC14Seq(t *testing.T) {
@@ -1108,6 +1153,11 @@ func TestC14Seq(t *testing.T) {
 			core.HarnessError("%v", err)
 		}
 		seq := 0
+		if pp := os.Getenv("VERIF_C14_PPROF"); pp != "" {
+			f, _ := os.Create(pp)
+			pprof.StartCPUProfile(f)
+			go func() { time.Sleep(8 * time.Second); pprof.StopCPUProfile(); f.Close() }()
+		}
 		core.WorkerMain(func(job core.Job) json.RawMessage {
 			var ops []op
 			if err := json.Unmarshal(job.Data, &ops); err != nil {
@@ -1121,21 +1171,43 @@ func TestC14Seq(t *testing.T) {
 		return
 	}
 	rep := core.NewReport("C14", "seq", "model_checking")
-	maxDepth, dedupFrom := 3, 99
-	fullHouseDepth := 2
-	if core.Thorough() {
-		maxDepth, dedupFrom = 5, 0
-		fullHouseDepth = 0
+	// private scratch root (the shared $VERIF_TMP is also cleaned by other checks' runs)
+	if os.Getenv("VERIF_TMP") == "" {
+		core.HarnessError("VERIF_TMP not set")
 	}
-	if v := os.Getenv("VERIF_C14_DEPTH"); v != "" {
-		maxDepth, _ = strconv.Atoi(v)
+	if stale, _ := filepath.Glob(filepath.Join(os.Getenv("VERIF_TMP"), "c14seq-*-*")); len(stale) > 0 {
+		for _, d := range stale { // left behind by an aborted run of this check
+			if parts := strings.Split(filepath.Base(d), "-"); len(parts) == 3 {
+				if _, err := os.Stat("/proc/" + parts[1]); err != nil {
+					os.RemoveAll(d)
+				}
+			}
+		}
+	}
+	scratch, err := os.MkdirTemp(os.Getenv("VERIF_TMP"), fmt.Sprintf("c14seq-%d-", os.Getpid()))
+	if err != nil {
+		core.HarnessError("%v", err)
+	}
+	os.Setenv("VERIF_TMP", scratch)
+	seqDepth, fullHouseDepth, bfsDepth := 3, 2, 0
+	if core.Thorough() {
+		bfsDepth = 5
+	}
+	if v := os.Getenv("VERIF_C14_DEPTH"); v != "" { // debugging aid: shrink/grow the main bound
+		n, _ := strconv.Atoi(v)
+		if core.Thorough() {
+			bfsDepth = n
+		} else {
+			seqDepth = n
+		}
 	}
 	rep.Rule = fmt.Sprintf("operation histories on a real torrent.Session with a 3-port range; alphabet = AddTorrent{id a (stopped, opts), id b (started), auto id}, AddURI{magnet id m}, "+
 		"failing adds {garbage bytes, garbage magnet, storage-provider error via AddTorrent and via AddURI; duplicate id and no-free-port arise from state}, "+
 		"RemoveTorrent{a,b,m,first auto} x {keep,delete} (also of absent ids), Start/Stop/AddTracker on each live target, CompactDatabase (+load the compacted file in a second session), Close+NewSession. "+
-		"quick: every applicable sequence of length <= %d without de-duplication plus every sequence of length <= 2 after the full-house prefix [addT:a addT:b addM:m]; "+
-		"thorough: BFS to depth %d, a state (sorted (slot, port offset, started, #trackers, name, ever-ran, loaded-from-db) + free ports) is expanded once. "+
-		"Every history runs on a fresh database; an implicit Close+reopen+compare ends every history. distinct = distinct canonical states.", 3, 5)
+		"Enumerated: every applicable sequence of length <= %d without de-duplication, plus every sequence of length <= %d after the full-house prefix [addT:a addT:b addM:m]; "+
+		"thorough adds a BFS to depth %d in which a state (sorted (slot, port offset, started, #trackers, name, ever-ran, loaded-from-db) + free ports) is expanded once. "+
+		"Every history runs on a fresh database and temp dir; all oracles run after every operation; an implicit Close+reopen+compare ends every history. distinct = distinct canonical states.",
+		seqDepth, fullHouseDepth, bfsDepth)
 	rep.Assumptions = []string{
 		"torrent payloads: two fixed single-file torrents (one shared by ids a/auto) and one magnet; no peers, so nothing completes and StopAfter* options are never consumed",
 		"transfer counters are injected through an in-package hook (Counter.Inc), as peers' traffic would; resume data is written by Close only (ResumeWriteInterval 24h)",
@@ -1214,14 +1286,14 @@ func TestC14Seq(t *testing.T) {
 		return out
 	}
 
-	explore := func(prefix []op, depth int, dedup bool, sampleEvery int) {
-		frontier := [][]op{append([]op{}, prefix...)}
-		// level 0: the prefix itself
-		res0 := runLevel(frontier)
+	explore := func(tag string, prefix []op, depth int, dedup bool, sampleEvery int) {
+		visited := map[string]bool{} // de-duplication is local to one exploration
+		res0 := runLevel([][]op{append([]op{}, prefix...)})
 		if res0[0] == nil {
 			return
 		}
 		seen[res0[0].Key] = true
+		visited[res0[0].Key] = true
 		nexts := [][]op{}
 		for _, o := range res0[0].Next {
 			nexts = append(nexts, append(append([]op{}, prefix...), o))
@@ -1236,7 +1308,8 @@ func TestC14Seq(t *testing.T) {
 				if sampleEvery > 0 && i%sampleEvery == 0 {
 					rep.Sample(8, map[string]any{"history": histString(nexts[i]), "trace": hr.Trace})
 				}
-				isNew := !seen[hr.Key]
+				isNew := !visited[hr.Key]
+				visited[hr.Key] = true
 				seen[hr.Key] = true
 				if d == depth || (dedup && !isNew) {
 					continue
@@ -1245,15 +1318,23 @@ func TestC14Seq(t *testing.T) {
 					nn = append(nn, append(append([]op{}, nexts[i]...), o))
 				}
 			}
-			rep.Extra[fmt.Sprintf("histories_at_depth_%d%s", len(prefix)+d, map[bool]string{true: "_after_prefix", false: ""}[len(prefix) > 0])] = int64(len(nexts))
+			rep.Extra[fmt.Sprintf("%s_histories_of_length_%d", tag, len(prefix)+d)] = int64(len(nexts))
 			nexts = nn
+		}
+		if dedup {
+			rep.Extra[tag+"_states"] = int64(len(visited))
 		}
 	}
 
-	explore(nil, maxDepth, dedupFrom == 0, 577)
+	explore("seq", nil, seqDepth, false, 577)
 	if fullHouseDepth > 0 {
-		explore([]op{{K: "addT", T: "a"}, {K: "addT", T: "b"}, {K: "addM", T: "m"}}, fullHouseDepth, false, 211)
+		explore("fullhouse", []op{{K: "addT", T: "a"}, {K: "addT", T: "b"}, {K: "addM", T: "m"}}, fullHouseDepth, false, 211)
 	}
+	if bfsDepth > 0 {
+		explore("bfs", nil, bfsDepth, true, 0)
+	}
+	cleanupLeftovers()
+	os.RemoveAll(scratch)
 
 	rep.States = int64(len(seen))
 	rep.Transitions = transitions
@@ -1264,7 +1345,7 @@ func TestC14Seq(t *testing.T) {
 		rep.Extra[k] = n
 	}
 	rep.Extra["distinct_operations_used"] = int64(len(opClasses))
-	rep.Extra["bounds"] = fmt.Sprintf("depth<=%d dedup=%v fullhouse-depth=%d ports=3", maxDepth, dedupFrom == 0, fullHouseDepth)
+	rep.Extra["bounds"] = fmt.Sprintf("all sequences<=%d; full-house prefix + <=%d; dedup BFS depth %d; ports=3", seqDepth, fullHouseDepth, bfsDepth)
 	for _, k := range []string{"add_ok", "add_failed_garbage", "add_failed_storage", "add_failed_dup", "add_failed_noport", "rm_live", "rm_absent", "start", "stop", "addtracker", "reopen", "restart_compared"} {
 		if totals[k] == 0 {
 			core.HarnessError("vacuous: counter %s is zero", k)
